@@ -214,7 +214,8 @@ fn usteps(xs: &[Sexp]) -> Option<Vec<UStep>> {
 
 fn ur(items: &[Sexp], o: &mut Oracle) -> Option<String> {
     let input = unhex(items.get(1)?.atom()?)?;
-    let steps = usteps(&items[2..])?;
+    let last = if matches!(items.last(), Some(Sexp::Atom(a)) if a == "oracle-only") { items.len() - 1 } else { items.len() };
+    let steps = usteps(&items[2..last])?;
     let mut b = Bytes::copy_from_slice(&input);
     let total = b.len();
     let mut outs: Vec<String> = vec![];
